@@ -281,6 +281,7 @@ func runC11(c *Ctx) {
 	c.c11ConverterTables()
 	c.c11MessagesAreNotFormats()
 	c.c11ContextFirst()
+	c.c11SerialisedBytesBelongToTheCaller()
 }
 
 // c11Separators (D7): writer and reader of the text form agree. The constructors write "kind<sep> reason" and the
@@ -368,6 +369,19 @@ func (c *Ctx) c11Separators() {
 	allInstrs(marshal, func(in ssa.Instruction) {
 		cl, ok := in.(*ssa.Call)
 		if !ok {
+			return
+		}
+		// the same through a buffer: WriteByte(sep) / WriteRune(sep) / WriteString(string(sep))
+		switch calleeFull(&cl.Call) {
+		case "(*bytes.Buffer).WriteByte", "(*bytes.Buffer).WriteRune", "(*strings.Builder).WriteByte", "(*strings.Builder).WriteRune":
+			if n, ok := constInt(cl.Call.Args[len(cl.Call.Args)-1]); ok {
+				appended = append(appended, string(rune(n)))
+			}
+			return
+		case "(*bytes.Buffer).WriteString", "(*strings.Builder).WriteString":
+			if sv, ok := constString(cl.Call.Args[len(cl.Call.Args)-1]); ok && len(sv) == 1 {
+				appended = append(appended, sv)
+			}
 			return
 		}
 		if b, isB := cl.Call.Value.(*ssa.Builtin); !isB || b.Name() != "append" {
@@ -1477,4 +1491,81 @@ func (c *Ctx) c11ContextFirst() {
 	})
 	c.check(bad == "", "D13", fname(f)+"/unchanged-only-without-a-context-error", c.pos(f.Pos()), "the argument is returned unchanged only past both context tests",
 		"ConvertContextError can hand its argument back as it is at "+bad+": an error that carries a kind of the library and contains a cancellation or a deadline (errors.Join(New(ErrInvalid, …), context.Canceled)) is then no longer turned into 'cancelled' / 'timeout' — WrapError, New and the converters, which all start with this call, reclassify the cancellation")
+}
+
+// c11SerialisedBytesBelongToTheCaller (D14): "serialising such an error to text and deserialising it yields an error of the
+// same kinds". The bytes SerialiseError returns are the caller's from then on: it may keep them while it serialises the
+// next error. Bytes that alias a buffer the package keeps (a sync.Pool of buffers, a package-level buffer) are overwritten
+// by the next marshalling — deserialising the first text then yields the kinds of the second error. Decided for every
+// MarshalText of package commonerrors (and SerialiseError): nothing they return derives from an object taken out of a
+// sync.Pool or from a package-level variable.
+func (c *Ctx) c11SerialisedBytesBelongToTheCaller() {
+	c.rule("D14", "the bytes returned by the marshallers of package commonerrors belong to the caller: they do not alias a buffer taken from a sync.Pool or kept in a package-level variable", 2)
+	for _, f := range c.srcFuncs("commonerrors") {
+		if f.Parent() != nil || f.Blocks == nil {
+			continue
+		}
+		if f.Name() != "MarshalText" && f.Name() != "SerialiseError" {
+			continue
+		}
+		bad := ""
+		allInstrs(f, func(in ssa.Instruction) {
+			r, ok := in.(*ssa.Return)
+			if !ok || len(r.Results) == 0 {
+				return
+			}
+			seen := map[ssa.Value]bool{}
+			var walk func(v ssa.Value, d int)
+			walk = func(v ssa.Value, d int) {
+				if v == nil || seen[v] || d > 25 {
+					return
+				}
+				seen[v] = true
+				switch x := v.(type) {
+				case *ssa.Global:
+					bad = "the package-level variable " + x.Name()
+				case *ssa.Call:
+					n := calleeFull(&x.Call)
+					if n == "(*sync.Pool).Get" {
+						bad = "an object taken from a sync.Pool (" + c.ipos(x) + ")"
+						return
+					}
+					// accessors that return the object's own storage: follow the object
+					switch n {
+					case "(*bytes.Buffer).Bytes", "(*bytes.Buffer).Next", "(*bytes.Buffer).AvailableBuffer":
+						walk(x.Call.Args[0], d+1)
+					}
+					if b, isB := x.Call.Value.(*ssa.Builtin); isB && b.Name() == "append" {
+						walk(x.Call.Args[0], d+1)
+					}
+				case *ssa.Phi:
+					for _, e := range x.Edges {
+						walk(e, d+1)
+					}
+				case *ssa.Extract:
+					walk(x.Tuple, d+1)
+				case *ssa.TypeAssert:
+					walk(x.X, d+1)
+				case *ssa.UnOp:
+					walk(x.X, d+1)
+				case *ssa.Slice:
+					walk(x.X, d+1)
+				case *ssa.ChangeType:
+					walk(x.X, d+1)
+				case *ssa.Convert:
+					// string <-> []byte conversions copy
+				case *ssa.Alloc:
+					for _, st := range storesToDeep(x) {
+						walk(st, d+1)
+					}
+				case *ssa.FieldAddr:
+					walk(x.X, d+1)
+				}
+			}
+			walk(r.Results[0], 0)
+		})
+		c.FuncsSeen[fname(f)] = true
+		c.check(bad == "", "D14", fname(f)+"/bytes-of-their-own", c.pos(f.Pos()), "what is returned does not alias pooled or package-level storage",
+			"the bytes "+fname(f)+" returns alias "+bad+": the caller that keeps the text of one joined error while it serialises (or deserialises) another finds the first text overwritten in place — deserialised, it yields the kinds of the second error, or a truncated mix of the two")
+	}
 }
